@@ -573,6 +573,94 @@ pub fn run_directed(ctx: &mut Ctx) {
     });
 }
 
+// ------------------------------------------------------------------ terminating recursive macros
+
+/// A macro that refers to itself through a generated expression: `@r` = `(? (< :d 1) BASE E)`
+/// where every `@r` inside E is written `(set "d" (- :d 1) @r)`, so the recursion ends after
+/// :d levels whatever the data is. Every function that occurs in E is then entered again
+/// while an evaluation of the same call is still in progress (scratch state kept with a call,
+/// guards, caches and borrow flags show here and nowhere else).
+#[derive(Clone, Debug, Serialize, Deserialize)]
+pub struct CaseRec {
+    pub e: Expr,
+    pub depth: u8,
+    pub base: String,
+    pub inputs: Vec<String>,
+}
+
+fn is_self_ref(e: &Expr) -> bool {
+    match e {
+        Expr::Mac(n) => n == "r",
+        Expr::Call { f, args } if f == "@" => !matches!(args.first(), Some(Expr::Lit(t)) if t != "\"r\""),
+        _ => false,
+    }
+}
+
+fn reenter(e: &Expr) -> Expr {
+    match e {
+        Expr::Mac(n) if n == "r" => Expr::call("set", vec![Expr::lit("\"d\""), Expr::call("-", vec![Expr::Var("d".into()), Expr::lit("1")]), Expr::Mac("r".into())]),
+        // the call spelling of the same reference
+        Expr::Call { f, args } if f == "@" && is_self_ref(e) => Expr::call("set", vec![Expr::lit("\"d\""), Expr::call("-", vec![Expr::Var("d".into()), Expr::lit("1")]), Expr::Call { f: f.clone(), args: args.clone() }]),
+        Expr::Call { f, args } => Expr::Call { f: f.clone(), args: args.iter().map(reenter).collect() },
+        other => other.clone(),
+    }
+}
+
+pub struct C05Recursive;
+impl Check for C05Recursive {
+    type Case = CaseRec;
+    fn name(&self) -> &'static str {
+        "C05.recursive_macros"
+    }
+    fn cases(&self, tier: Tier) -> u64 {
+        tier.pick(30_000, 600_000)
+    }
+    fn strategy(&self, _t: Tier) -> BoxedStrategy<CaseRec> {
+        (vec(any::<u32>(), 0..300), 1u8..4, 0usize..1000)
+            .prop_map(|(tape, depth, root)| {
+                let mut g = Gen::new(&tape, GenCfg { ill: 2, chars: Chars::Bmp, bind_bias: true, exclude: vec!["exec", "trigger", "now", "define"], ..GenCfg::default() });
+                let mut env = Env::top();
+                // (the counter :d is not offered to the generator: it would rebind it)
+                let k = *g.tape.pick(&[Any, Num, Str, ArrNum, Bool]);
+                env.macros.push(("r".to_string(), k));
+                // stratified roots; the macro occurs at least once (an extra argument slot if needed)
+                let si = root % SIGS.len();
+                let mut e = if IMPURE.contains(&SIGS[si].f) || matches!(SIGS[si].f, "define" | "set" | ":" | "@") { g.expr(k, 3, &env) } else { g.call_sig(si, Any, 3, &env) };
+                if !e.any(&|x| is_self_ref(x)) {
+                    e = Expr::call("default", vec![e, Expr::Mac("r".into())]);
+                }
+                let base = g.lit(k, 1);
+                let n = 1 + g.tape.below(2);
+                let inputs = (0..n).map(|_| g.record()).collect();
+                CaseRec { e, depth, base, inputs }
+            })
+            .boxed()
+    }
+    fn check(&self, c: &CaseRec) -> CaseResult {
+        // every path through E uses @r at most a handful of times: bound the fan-out
+        fn count(e: &Expr) -> usize {
+            match e {
+                x if is_self_ref(x) => 1,
+                Expr::Call { args, .. } => args.iter().map(count).sum(),
+                _ => 0,
+            }
+        }
+        if count(&c.e) > 3 {
+            return CaseResult::Discard("more than three self-references (fan-out)".into());
+        }
+        let body = Expr::call("?", vec![Expr::call("<", vec![Expr::Var("d".into()), Expr::lit("1")]), Expr::Lit(c.base.clone()), reenter(&c.e)]);
+        let args = vec![format!("--set=d={}", c.depth), format!("--set=@r={}", canon(&body)), "--select=@r = v".to_string()];
+        let o = run(&args, c.inputs.join("\n").as_bytes());
+        if let Err(m) = judge(&o) {
+            return CaseResult::Fail(format!("{} [args {:?}]", m, args));
+        }
+        if let Res::Err(m) = &o.res {
+            return CaseResult::Discard(format!("rejected: {}", m));
+        }
+        CaseResult::Pass(Info::new(o.stdout.windows(4).any(|w| w == b"\"v\":")).class(["", "depth_1", "depth_2", "depth_3"][c.depth.min(3) as usize]).class_if(count(&c.e) >= 2, "several_self_references").obs(json!({"args": args, "stdout": esc_trunc(&o.stdout, 80)})))
+    }
+}
+
 /// replayable wrapper for failures found by the pool enumeration
 pub struct C05Pools;
 impl Check for C05Pools {
@@ -651,7 +739,7 @@ pub fn run_pools(ctx: &mut Ctx) {
 
 pub fn run_all(ctx: &mut Ctx) {
     install_abort_reporter_for(&ctx.root.clone(), true);
-    ctx.rule = "(bytes_exhaustive) every byte string over the 24-byte alphabet { } [ ] , : \" \\ - + . 0 1 e E t r u n l SP LF 0xC3 0xA9 up to length 5 (quick) / 6 (thorough) under --on-error=ignore and up to length 4 / 5 under panic, stderr, stdout. (bytes) generated streams, alphabet soup, raw bytes and depth-64 values, mutated 0..5 times (truncate, bit flip, splice of a token fragment incl. broken UTF-8 and broken escapes, delete, duplicate, overwrite), <= 4 KiB, x 4 policies x 8 pipelines. (expressions) every signature of every function as root (stratified), depth <= 4, ill-typed arguments with probability 6/16, full Unicode strings incl. astral, boundary and huge numbers (allocation-size arguments bounded as the property says), in 7 option positions, on 1..3 generated inputs. (pools) every signature with literal arguments from the wide pools of C04.pools plus extreme numbers (2^64-1, -2^63, +-1e18, +-1e308, 2^31, 2^32-1) in every numeric position that does not decide an allocation. (directed) see the space description. Oracle: the run returns (Ok or Err), never a panic (catch_unwind), never an abort (SIGABRT reporter), never a hang (60 s watchdog + isolated re-run). non-trivial (bytes) = the input is not a clean stream of values and has >= 2 bytes; every expression case counts".into();
+    ctx.rule = "(bytes_exhaustive) every byte string over the 24-byte alphabet { } [ ] , : \" \\ - + . 0 1 e E t r u n l SP LF 0xC3 0xA9 up to length 5 (quick) / 6 (thorough) under --on-error=ignore and up to length 4 / 5 under panic, stderr, stdout. (bytes) generated streams, alphabet soup, raw bytes and depth-64 values, mutated 0..5 times (truncate, bit flip, splice of a token fragment incl. broken UTF-8 and broken escapes, delete, duplicate, overwrite), <= 4 KiB, x 4 policies x 8 pipelines. (expressions) every signature of every function as root (stratified), depth <= 4, ill-typed arguments with probability 6/16, full Unicode strings incl. astral, boundary and huge numbers (allocation-size arguments bounded as the property says), in 7 option positions, on 1..3 generated inputs. (recursive_macros) a macro @r = (? (< :d 1) BASE E) whose generated body E (every signature as root) refers to @r under (set \"d\" (- :d 1) ..), depth 1..3: every function is re-entered while a call of the same node is in progress. (pools) every signature with literal arguments from the wide pools of C04.pools plus extreme numbers (2^64-1, -2^63, +-1e18, +-1e308, 2^31, 2^32-1) in every numeric position that does not decide an allocation. (directed) see the space description. Oracle: the run returns (Ok or Err), never a panic (catch_unwind), never an abort (SIGABRT reporter), never a hang (60 s watchdog + isolated re-run). non-trivial (bytes) = the input is not a clean stream of values and has >= 2 bytes; every expression case counts".into();
     ctx.assumptions = vec!["optimised build of jawk with integer-overflow checks on (what `cargo build` and `cargo test` check, what a release build would silently wrap)".into(), "sizes that decide an allocation (range N, sub length) are kept <= 10^4: resource exhaustion is outside the property".into()];
     let (l_ignore, l_other) = ctx.tier.pick((5u32, 4u32), (6u32, 5u32));
     run_exhaustive(ctx, 0, l_ignore);
@@ -660,12 +748,13 @@ pub fn run_all(ctx: &mut Ctx) {
     }
     C05Bytes.run(ctx);
     C05Expr.run(ctx);
+    C05Recursive.run(ctx);
     run_pools(ctx);
     run_directed(ctx);
 }
 
 pub fn checks() -> Vec<Box<dyn DynCheck>> {
-    vec![Box::new(C05Bytes), Box::new(C05Expr), Box::new(C05Directed), Box::new(C05Pools)]
+    vec![Box::new(C05Bytes), Box::new(C05Expr), Box::new(C05Directed), Box::new(C05Pools), Box::new(C05Recursive)]
 }
 
 #[allow(dead_code)]
